@@ -54,6 +54,12 @@ type readerCtx struct {
 	bufLen  int64
 	words   []trailerWord
 	eofa    *eofAnalysis
+	// the function in which the trailer is read and compared: Read itself, or a same-package helper that Read calls
+	// on its receiver (vcall) and whose nil result stands for "verified"
+	vfn   *ssa.Function
+	vrecv ssa.Value
+	vcall *ssa.Call
+	p     *Program
 }
 
 type trailerWord struct {
@@ -130,12 +136,36 @@ func (p *Program) containerReaders(r *Report, rule string) []*readerCtx {
 				}
 			}
 		}
+		ctx.vfn, ctx.vrecv, ctx.p = fn, ctx.recv, p
+		if ctx.inner != nil && ctx.trailer == nil {
+			// the trailer check may have been extracted into a helper method that returns an error
+			for _, c := range allCalls(fn) {
+				call, ok := c.(*ssa.Call)
+				h := c.Common().StaticCallee()
+				if !ok || h == nil || h.Blocks == nil || h.Pkg != fn.Pkg || len(h.Params) == 0 || len(call.Common().Args) == 0 || call.Common().Args[0] != ctx.recv {
+					continue
+				}
+				if res := h.Signature.Results(); res.Len() != 1 || !isErrorType(res.At(0).Type()) {
+					continue
+				}
+				for _, hc := range allCalls(h) {
+					hcall, ok := hc.(*ssa.Call)
+					if !ok || !isFunc(callInfo(hcall).Static, "io", "ReadFull") || ctx.trailer != nil {
+						continue
+					}
+					if root, sel, lo, hi, ok := sliceBounds(hcall.Common().Args[1]); ok && root == ssa.Value(h.Params[0]) && lo == 0 {
+						ctx.trailer, ctx.bufSel, ctx.bufLen = hcall, sel, hi
+						ctx.vfn, ctx.vrecv, ctx.vcall = h, h.Params[0], call
+					}
+				}
+			}
+		}
 		if ctx.inner == nil || ctx.trailer == nil {
 			r.Undecided(rule, shortFn(fn)+"|anchors", p.Pos(fn.Pos()), "Read has an inner inflater Read call and a trailer io.ReadFull into a receiver buffer", "anchor not found")
 			continue
 		}
 		// trailer words: Uint32 over slices of the same buffer, dominated by the trailer read
-		for _, c := range allCalls(fn) {
+		for _, c := range allCalls(ctx.vfn) {
 			call, ok := c.(*ssa.Call)
 			if !ok {
 				continue
@@ -146,7 +176,7 @@ func (p *Program) containerReaders(r *Report, rule string) []*readerCtx {
 			}
 			args := call.Common().Args
 			root, sel, lo, hi, ok := sliceBounds(args[len(args)-1])
-			if !ok || root != ctx.recv || sel != ctx.bufSel || !dominatesInstr(ctx.trailer, call) {
+			if !ok || root != ctx.vrecv || sel != ctx.bufSel || !dominatesInstr(ctx.trailer, call) {
 				continue
 			}
 			w := trailerWord{call: call, lo: lo, hi: lo + 4}
@@ -166,10 +196,10 @@ func (p *Program) containerReaders(r *Report, rule string) []*readerCtx {
 				}
 			}
 			if w.other != nil {
-				if root, sel, ok := fieldLoad(w.other); ok && root == ctx.recv {
+				if root, sel, ok := fieldLoad(w.other); ok && root == ctx.vrecv {
 					w.otherSel = sel
 				} else if oc, ok := w.other.(*ssa.Call); ok && oc.Common().IsInvoke() {
-					if root, sel, ok := fieldLoad(oc.Common().Value); ok && root == ctx.recv {
+					if root, sel, ok := fieldLoad(oc.Common().Value); ok && root == ctx.vrecv {
 						w.otherSel = sel
 					}
 				}
@@ -184,6 +214,34 @@ func (p *Program) containerReaders(r *Report, rule string) []*readerCtx {
 
 // verifiedAt: is instruction `at` dominated by the equal-edge of every trailer word comparison?
 func (ctx *readerCtx) verifiedAt(at ssa.Instruction) (bool, string) {
+	if ctx.vcall != nil && at.Parent() == ctx.fn {
+		// in Read: behind the nil result of the verifying helper, every nil-capable return of which is verified
+		behind := false
+		for _, f := range dominatingFacts(at) {
+			if f.Op == token.EQL && f.Y != nil && ((f.X == ssa.Value(ctx.vcall) && isNil(f.Y)) || (f.Y == ssa.Value(ctx.vcall) && isNil(f.X))) {
+				behind = true
+			}
+		}
+		if !behind {
+			return false, "not dominated by the nil result of " + shortFn(ctx.vfn) + ", which reads and compares the trailer"
+		}
+		for _, b := range ctx.vfn.Blocks {
+			for _, in := range b.Instrs {
+				ret, ok := in.(*ssa.Return)
+				if !ok {
+					continue
+				}
+				e := returnErr(ret)
+				if e == nil || !ctx.p.mayBeNil(ctx.vfn, e, ret) {
+					continue
+				}
+				if ok, why := ctx.verifiedAt(ret); !ok {
+					return false, "the helper " + shortFn(ctx.vfn) + " can return nil at " + ctx.p.InstrPos(ret) + " where it is " + why
+				}
+			}
+		}
+		return true, ""
+	}
 	facts := dominatingFacts(at)
 	for _, w := range ctx.words {
 		if w.cmp == nil {
@@ -313,7 +371,7 @@ func ruleR07_1(p *Program, r *Report) {
 					// from the mismatch edge every path stores a non-nil, non-EOF sentinel to the sticky field before returning
 					found, _, _ := PathQuery{Target: func(x ssa.Instruction) bool { _, ok := x.(*ssa.Return); return ok }, Barrier: func(x ssa.Instruction) bool {
 						st, ok := x.(*ssa.Store)
-						if !ok || !isStickyStore(st, ctx.recv, ctx.tr.Sticky) {
+						if !ok || !isStickyStore(st, ctx.vrecv, ctx.tr.Sticky) {
 							return false
 						}
 						g := globalLoad(st.Val)
@@ -330,7 +388,7 @@ func ruleR07_1(p *Program, r *Report) {
 							}
 						}
 						return true
-					}}.findFromBlock(fn, mis)
+					}}.findFromBlock(ctx.vfn, mis)
 					good = !found
 				}
 			}
@@ -699,7 +757,32 @@ func ruleR08_2(p *Program, r *Report) {
 					k, isK := constInt(st.Val)
 					return root == ctx.recv && s == sel && isK && k == 0
 				}
-				found, _, path := PathQuery{Start: w.cmp, Target: func(x ssa.Instruction) bool { return x == ssa.Instruction(c) }, Barrier: zero}.Find(fn)
+				found, _, path := false, ssa.Instruction(nil), []int(nil)
+				if ctx.vcall == nil {
+					found, _, path = PathQuery{Start: w.cmp, Target: func(x ssa.Instruction) bool { return x == ssa.Instruction(c) }, Barrier: zero}.Find(fn)
+				} else {
+					// the comparison lives in the verifying helper: zeroed there before a nil return, or in Read between the helper call and the header
+					zeroH := func(x ssa.Instruction) bool {
+						st, ok := x.(*ssa.Store)
+						if !ok {
+							return false
+						}
+						root, s := accessPath(st.Addr)
+						k, isK := constInt(st.Val)
+						return root == ctx.vrecv && s == sel && isK && k == 0
+					}
+					inHelper, _, _ := PathQuery{Start: w.cmp, Target: func(x ssa.Instruction) bool {
+						ret, ok := x.(*ssa.Return)
+						if !ok {
+							return false
+						}
+						e := returnErr(ret)
+						return e != nil && p.mayBeNil(ctx.vfn, e, ret)
+					}, Barrier: zeroH}.Find(ctx.vfn)
+					if inHelper {
+						found, _, path = PathQuery{Start: ctx.vcall, Target: func(x ssa.Instruction) bool { return x == ssa.Instruction(c) }, Barrier: zero}.Find(fn)
+					}
+				}
 				if found {
 					r.Fail("R08.2", base+"|restart "+sel, p.InstrPos(c), "running "+sel+" restarts at zero before the next member", "next header reachable without zeroing (blocks "+fmtInts(path)+")")
 				} else {
